@@ -2,6 +2,7 @@ package vm
 
 import (
 	"fmt"
+	"math/big"
 
 	"github.com/Oneledger/protocol/data/balance"
 	"github.com/Oneledger/protocol/data/keys"
@@ -102,5 +103,8 @@ func (s *CommitStateDB) clearJournalAndRefund() {
 func (s *CommitStateDB) deleteStateObject(so *stateObject) {
 	so.deleted = true
 	s.logger.Detailf("VM: delete state object for address '%s' with nonce: '%d' and balance: '%d' \n", so.Address(), so.account.Sequence, so.account.Balance())
+	// a deleted account leaves nothing behind: funds sent to it after its self-destruct in the same
+	// transaction are destroyed, as in go-ethereum (RemoveAccount writes this balance through)
+	so.account.SetBalance(new(big.Int))
 	s.accountKeeper.RemoveAccount(*so.account)
 }
